@@ -175,6 +175,12 @@ Proof.
   unfold opt_disable, set_repl_settings, opt_delete_host. pac; pstmt.
 Qed.
 
+Lemma d_opt_disable_all_k k m nodes : allcalls PP (opt_disable_all_k k m nodes).
+Proof.
+  unfold opt_disable_all_k. destruct k; [apply d_opt_disable_all|].
+  unfold dcs_children_. apply allcalls_bind; [split; [pstmt|intros r; pac]|]. intros; exact I.
+Qed.
+
 Lemma d_set_recovery h : allcalls PP (set_recovery h).
 Proof. unfold set_recovery, get_active_nodes, set_active_nodes, dcs_create_tolerant. pac; pstmt. Qed.
 
@@ -365,7 +371,7 @@ Proof.
   match goal with |- safe _ _ _ _ (if ?c then _ else _) => destruct c end; [exact I|].
   match goal with |- safe _ _ _ _ (if ?c then _ else _) => destruct c end; [exact I|].
   set (active := match sw_cause_ sw, sw_from sw with | CauseAuto, Some f => _ | _, _ => _ end).
-  sb 0; [apply safe_calm; dapp d_opt_disable_all|]. clear st H0. intros st [e0|] H0; [exact I|].
+  sb 0; [apply safe_calm; dapp d_opt_disable_all_k|]. clear st H0. intros st [e0|] H0; [exact I|].
   sb 0; [destruct (negb (is_failover sw)); [apply safe_calm; dapp d_timing_now|exact I]|]. clear st H0. intros st _ H0.
   cbn [safe]. split.
   { induction active as [|h r IH]; [exact I|]. cbn [map]. split; [|exact IH].
